@@ -786,6 +786,12 @@ impl TransactionBuilder {
                 "Total collateral value cannot contain assets!",
             ));
         }
+        let return_plus_total: Value = collateral_return.amount().checked_add(&total_col)?;
+        if return_plus_total != col_input_value {
+            return Err(JsError::from_str(
+                "Collateral return cannot contain assets that are missing in the collateral inputs!",
+            ));
+        }
 
         let min_ada = min_ada_for_output(&collateral_return, &self.config.utxo_cost())?;
         if min_ada > collateral_return.amount.coin {
@@ -845,6 +851,8 @@ impl TransactionBuilder {
                 )));
             }
             self.collateral_return = Some(return_output);
+        } else {
+            self.collateral_return = None;
         }
         self.set_total_collateral(total_collateral);
 
